@@ -464,7 +464,7 @@ func (g *svGen) defs() {
 		var ops []svOp
 		for k := g.r.Intn(5); k > 0; k-- {
 			kind := g.r.Intn(4)
-			op := svOp{K: kind, F: g.r.Intn(20), L: 1 + g.r.Intn(11)}
+			op := svOp{K: kind, F: g.r.Intn(20), L: g.r.Intn(12)} // a length of 0 is legal (it places nothing; a bit mask of 0 bits clears everything)
 			if kind == 0 {
 				op.L = 2
 			}
